@@ -284,13 +284,13 @@ Theorem program_order syms stmts names prog :
   names = names_of syms /\
   Forall2 (fun s st => exists n eq i k0 e,
              sname s = Some n /\ In eq stmts /\
-             stmt_of_equation (fun x => index_of x names) eq = Some (n, st) /\
-             st = SAssign i k0 e /\ index_of n names = Some i)
+             stmt_of_equation (row_of names) eq = Some (n, st) /\
+             st = SAssign i k0 e /\ row_of names n = Some i)
           (filter emits syms) prog.
 Proof.
   unfold program_of_symbols.
   destruct (existsb (fun s => type_eqb (stype s) TVerbatim) syms); [discriminate|].
-  destruct (all_some (map (stmt_of_equation (fun x => index_of x (names_of syms))) stmts)) as [defs|] eqn:Ed; [|discriminate].
+  destruct (all_some (map (stmt_of_equation (row_of (names_of syms))) stmts)) as [defs|] eqn:Ed; [|discriminate].
   destruct (all_some (map (fun s => match sname s with Some n => assoc_stmt n defs | None => None end) (filter emits syms)))
     as [p|] eqn:Ep; [|discriminate].
   intros H; inversion H; subst. split; [reflexivity|].
